@@ -375,6 +375,7 @@ def run(rep, tier, seed, only=None):
     rep.bounds = {"template arity": "2..6, 8, 11 (+13, 16, 21 for AND/OR/NAND/NOR) quick; + 9, 10, 12, 13 (32) thorough", "circuits": "feature family + seeded <= 5 inputs / <= 10 gates (quick), <= 6 / <= 14 (thorough); deep reconvergent circuits of 405 and 520 gates (quick), 401..1500 gates (thorough)",
                   "output selections": "None, [0], repeated, reversed, random, []"}
     rep.outside = ["arities other than the listed ones", "the real PySAT solvers (environment stub is used; contract: sound and complete)"]
+    rep.bounds['histories'] = 'Cnf.from_circuit - caller adds clauses - Cnf.from_circuit / is_circuit_satisfiable again (feature + every second seeded circuit)'
     rep.rule = "case = (circuit, output selection); z3 decides A/B/C over all inputs and all CNF variables; mapping gate<->variable derived by entailment"
     rep.explanation = ("CNF from the real code is a z3 formula; A (soundness), B (completeness with the evaluated values as witness) and "
                        "C (uniqueness of the extension) are unsat for every case; input i is variable i+1 by construction of the queries.")
